@@ -747,6 +747,12 @@ func Walk(n Node, visit func(n Node) bool) {
 				}
 				stack = append(stack, n.X)
 			}
+		case *ParenExpr:
+			if visit(n) {
+				if n.X != nil {
+					stack = append(stack, n.X)
+				}
+			}
 		case *BasicLit:
 			visit(n)
 		case *CallExpr:
